@@ -44,9 +44,9 @@ def gen_cfg(maxfiles, withenv, withsingle, allorders=False, tail="SPECIFICATION 
             % (maxfiles, str(withenv).upper(), str(withsingle).upper(), str(allorders).upper(), tail))
 
 
-R_TAIL = ("SPECIFICATION RSpec\nINVARIANTS TypeOK OneToOne NothingElseWritten InputsUntouched ErrorsNamed Isolation\n"
+R_TAIL = ("SPECIFICATION RSpec\nPROPERTY PickForms\nINVARIANTS TypeOK OneToOne NothingElseWritten InputsUntouched ErrorsNamed Isolation\n"
           "CHECK_DEADLOCK FALSE\n")
-M_TAIL = ("SPECIFICATION MSpec\nPROPERTY RSpec\nINVARIANTS TypeOK OneToOne NothingElseWritten InputsUntouched "
+M_TAIL = ("SPECIFICATION MSpec\nPROPERTY RSpecP\nINVARIANTS TypeOK OneToOne NothingElseWritten InputsUntouched "
           "ErrorsNamed Isolation MDoneImpliesDone\nCHECK_DEADLOCK FALSE\n")
 
 
@@ -258,35 +258,34 @@ def run(pid, tier):
     t0 = time.time()
     # ---- 2. scenarios from TLC ----------------------------------------------
     gpool = concurrent.futures.ThreadPoolExecutor(max_workers=3)
-    g3 = gpool.submit(generate, 3, thorough, False, "f3env" if thorough else "f3")
+    g3 = gpool.submit(generate, 3, False, False, "f3")
     g4 = gpool.submit(generate, 4, False, False, "f4") if thorough else None
     scns, res = generate(2, True, True, "f2env")
     ck.models.append({"module": "FilesGen", "cfg": "MaxFiles=2 WithEnv WithSingle", "what": "scenario generation (every scenario once, with M's prediction)", **res.summary()})
     ck.states += res.distinct
     ck.transitions += res.generated
     gen_counts = {"<=2 files x env x single": len(scns)}
-    if thorough:
-        s3, res3 = g3.result()
-        s3 = [s for s in s3 if len(s["files"]) == 3]
-        tagn = "3 files x env"
-    else:
-        s3, res3 = g3.result()
-        s3 = [s for s in s3 if len(s["files"]) == 3]
-        tagn = "3 files, env assigned round-robin"
-    ck.models.append({"module": "FilesGen", "cfg": "MaxFiles=3", "what": "scenario generation, " + tagn, **res3.summary()})
+    s3, res3 = g3.result()
+    s3 = [s for s in s3 if len(s["files"]) == 3]
+    tagn = "3 files"
+    ck.models.append({"module": "FilesGen", "cfg": "MaxFiles=3", "what": "scenario generation: every tree of 3 files x every fault assignment", **res3.summary()})
     ck.states += res3.distinct
     ck.transitions += res3.generated
     gen_counts[tagn + " (generated)"] = len(s3)
+    envs = [(p, e) for p in ("absent", "empty", "stale") for e in (False, True)]
+    gks = sorted({group_key(s) for s in s3})
     if not thorough:
-        # quick: all trees of 3 files keep their no-fault scenario and a seeded sample of fault assignments
+        # quick: every tree keeps its no-fault scenario and a seeded sample of its fault assignments, one environment per tree
         keep = [s for s in s3 if all(f["fault"] == "none" for f in s["files"]) or r.random() < 0.08]
-        envs = [(p, e) for p in ("absent", "empty", "stale") for e in (False, True)]
-        gks = sorted({group_key(s) for s in keep})
-        envof = {gk: envs[i % 6] for i, gk in enumerate(gks)}
-        for s in keep:
-            gk = group_key(s)
-            s["pre"], s["esub"] = envof[gk]
-        s3 = keep
+        envof = {gk: [envs[i % 6]] for i, gk in enumerate(gks)}
+    else:
+        # thorough: every fault assignment of every tree, under two of the six environments (all six occur over the trees)
+        keep = s3
+        envof = {gk: [envs[i % 6], envs[(i + 3 + (i // 6) % 2) % 6]] for i, gk in enumerate(gks)}
+    s3 = []
+    for s in keep:
+        for p, e in envof[group_key(s)]:
+            s3.append(dict(s, pre=p, esub=e))
     gen_counts[tagn + " (run)"] = len(s3)
     s4 = []
     if thorough:
@@ -392,7 +391,7 @@ def run(pid, tier):
                "(lf / no final newline / non-ASCII / empty / blank; CRLF / lone CR / mixed in the newline family) are assigned round-robin over trees")
     ck.exhaustive = True if not thorough else True
     ck.notes["exhaustive_scope"] = ("every scenario with <= 2 files x environment + all single-file scenarios" +
-                                    (" + every scenario with 3 files x environment; 4 files: sampled trees x all fault assignments" if thorough
+                                    (" + every tree x fault assignment with 3 files under 2 of the 6 environments; 4 files: sampled trees x all fault assignments" if thorough
                                      else "; 3 files: all trees, sampled fault assignments"))
     if outs:
         g0 = groups[len(groups) // 2]
@@ -402,8 +401,36 @@ def run(pid, tier):
     return ck.finish()
 
 
+def replay(pid, path):
+    """Re-run the execution stored in a replay file on the real code and have TLC judge it again."""
+    case = json.load(open(path))["case"]
+    g = dict(case["group"])
+    sc = dict(case["scenario"], entries=[case["entry"]])
+    g["scenarios"] = [sc]
+    go = W.run_group(g, tlc.subdir("fs"), common.REPO)
+    res_ = go["results"][0]
+    traces = [res_["events"]]
+    if g["family"] == "nl":
+        traces.append([dict(e, tol=True) if e["ev"] == "file" else e for e in res_["events"]])
+    rejected, _ = validate_traces("FilesTrace", "FilesTrace.cfg", traces)
+    bad = 0
+    for ti, (k, clause) in sorted(rejected.items()):
+        if ti == 1 and (clause == "EntryPointsDifferNewline" or rejected.get(0, (None, "EntryPointsDifferNewline"))[1] != "EntryPointsDifferNewline"):
+            continue
+        ev = traces[ti][k]
+        key = violation_key(clause, g, res_, ev) + (" (newline difference tolerated)" if ti == 1 else "")
+        known = common.match_known(pid, key, clause)
+        print("REPLAY %s: %s at %s %s" % ("known finding" if known else "VIOLATION", key, ev.get("id", "end-of-run"),
+                                          {x: ev[x] for x in ("fault", "pre", "out", "ref", "base", "reported") if x in ev}))
+        bad += 0 if known else 1
+    print("%s replay: %d traces judged by TLC, %d violations" % (pid, len(traces), bad))
+    return 1 if bad else 0
+
+
 if __name__ == "__main__":
     if sys.argv[1:2] == ["--worker"]:
         worker_main(sys.argv[2], sys.argv[3], sys.argv[4])
+    elif sys.argv[1:2] == ["--replay"]:
+        common.main_wrapper(lambda: replay("C16", sys.argv[2]))
     else:
         common.main_wrapper(lambda: run("C16", sys.argv[1] if len(sys.argv) > 1 else "quick"))
